@@ -31,7 +31,7 @@ CHECKS = {
                 text="All source programs up to 3 (thorough 4) instructions over a menu with literals in every register position, "
                      "array index and slice bound, every placement of up to two labels (consecutive, after the end, forward and "
                      "backward), both entry forms (text and ProtoSubroutine), all ordered macro definitions over prefix-related "
-                     "keys, argument brackets, the 11..16-register pressure family and every {register, literal} combination of the operand "
+                     "keys, argument brackets, the 11..16-register pressure family, ten label-name pairs that resemble other token classes and every {register, literal} combination of the operand "
                      "positions of 20 instruction templates are assembled by the real assembler; the "
                      "result is encoded, decoded and executed on the reference VM from a state where every register holds a distinct sentinel and "
                      "compared with the source-level interpretation (named registers, arrays, shared memory, fault class, "
@@ -109,7 +109,9 @@ CHECKS = {
                      "the pending commands, the builder's qubit list and the controller's unit module. Every flush must execute "
                      "without allocation faults (gate on unallocated qubit, double allocation, free of unallocated, id outside the "
                      "unit module) and afterwards conn.active_qubits, the handles the program still holds and the controller's "
-                     "allocated virtual ids must be the same set.",
+                     "allocated virtual ids must be the same set. In addition every configuration with budgets 2-4 is explored with a flush "
+                     "after every operation until the state graph closes (2-65 states), i.e. for flushed histories of any length; "
+                     "sequential keep without a post routine (handle used at once) is part of the alphabet.",
                 note="depth 3-5 quick / 5-8 thorough per budget (state caps reported); EPR responses delivered on demand, all Phi+; open "
                      "known findings for NV-only SDK defects (non-sequential NV context deadlock, hard-coded NV memory ids, carbon-carbon "
                      "gate through an unallocated electron)",
@@ -171,7 +173,7 @@ CHECKS = {
                      "that normalise their own scratch registers",
                 ref="3/C13"),
     "C14": dict(cat="model_checking", tech="explicit-state BFS over completed-SDK-operation histories on the builder's register economy until the state graph closes; nesting families executed on the real controller",
-                text="Breadth-first search over histories of 38 kinds of completed SDK operations (loops also with an explicit loop register, start and step) plus flush (forced at the latest after 15 "
+                text="Breadth-first search over histories of 39 kinds of completed SDK operations (loops also with an explicit loop register, start and step) plus flush (forced at the latest after 15 "
                      "operations) on one connection, hashing the builder's register economy; every transition compiles and serialises "
                      "the real subroutine. Every completed operation must return the pool to the state it found (no active register, "
                      "no measurement register beyond live RegFutures, no open context), also after a probing flush that follows every "
